@@ -61,12 +61,14 @@ def _sum_case(vals, acc):
     c, k, seed = vals
     if c == 'size+1':
         sizes = [0, 1, 7, 4097]
+    elif c == 'big':
+        sizes = [(1 << 20) + 1, (1 << 22) + 3, 3 * 65536 + 65535]
     else:
         sizes = sorted({0, 1, c - 1, c, c + 1, 2 * c - 1, 2 * c, 2 * c + 1, 3 * c})
     if k >= len(sizes):
         return
     size = sizes[k]
-    chunk = size + 1 if c == 'size+1' else c
+    chunk = size + 1 if c == 'size+1' else (65536 if c == 'big' else c)
     content = filler(seed, size, size % 251)
     path = os.path.join(tmpdir(), 'sum-%s-%d' % (c, size))
     with open(path, 'wb') as f:
@@ -89,7 +91,8 @@ def _sum_case(vals, acc):
         if fileutils.compute_file_checksum(path) != hashlib.sha256(content).hexdigest():
             acc.fail('checksum-defaults', {'size': size}, {'sum': [size, 65536, 'sha256', seed]})
         # last_bytes on the same file
-        for n in sorted({0, 1, max(size - 1, 0), size, size + 1, 2 * size + 1000, 1 << 40, 1 << 62}):
+        for n in sorted({0, 1, max(size - 1, 0), size, size + 1, 2 * size + 1000, 1 << 40, 1 << 62,
+                         4095, 4096, 4097, 8192, 65536, 65537}):
             acc.counters['last_bytes_calls'] += 1
             take = min(n, size)
             want = (content[size - take:], size - take)
@@ -201,6 +204,26 @@ def check_errno(rep):
                 rep.fail('delete_if_exists-errno', {'errno': errno.errorcode[code], 'got': repr(got),
                                                     'calls': calls},
                          {'errno': [code, 'file', 'remove']})
+        # the requested mode is applied to what is created
+        old_umask = os.umask(0o022)
+        try:
+            for mode in (0o700, 0o750, 0o755):
+                d = os.path.join(base, 'mode-%o' % mode, 'leaf')
+                rep.count('evaluations')
+                rep.nontrivial('mode%o' % mode)
+                fileutils.ensure_tree(d, mode)
+                got = os.stat(d).st_mode & 0o777
+                if got != mode & ~0o022:
+                    rep.fail('ensure_tree-mode', {'requested': oct(mode), 'got': oct(got)},
+                             {'errno': [0, 'mode', 'makedirs']})
+            d = os.path.join(base, 'mode-default')
+            fileutils.ensure_tree(d)
+            rep.count('evaluations')
+            if os.stat(d).st_mode & 0o777 != 0o777 & ~0o022:
+                rep.fail('ensure_tree-default-mode', {'got': oct(os.stat(d).st_mode & 0o777)},
+                         {'errno': [0, 'mode', 'makedirs']})
+        finally:
+            os.umask(old_umask)
         # the real thing: idempotence
         rep.count('evaluations')
         nested = os.path.join(base, 'n1', 'n2', 'n3')
@@ -241,7 +264,7 @@ def check_errno(rep):
 def run(ctx):
     rep = ctx.new_report()
     try:
-        E.run(rep, 'checksum+last_bytes', [[1, 2, 7, 64, 4096, 65536, 'size+1'], list(range(9)),
+        E.run(rep, 'checksum+last_bytes', [[1, 2, 7, 64, 4096, 65536, 'size+1', 'big'], list(range(9)),
                                            [ctx.seed, ctx.seed + 1] if ctx.thorough else [ctx.seed]],
               _sum_case)
         rep.count('evaluations', rep.counters.get('checksum_calls', 0) +
